@@ -5,7 +5,6 @@ package persistence
 // history search (c14a_test.go), the crash-point enumeration and its worker (c14b_test.go).
 
 import (
-	"syscall"
 	"bytes"
 	"encoding/json"
 	"errors"
@@ -17,6 +16,7 @@ import (
 	"sort"
 	"strconv"
 	"strings"
+	"syscall"
 	"testing"
 	"time"
 
